@@ -21,6 +21,14 @@ def make_base(seed):
     sc = scen.gen(seed, rev=False, layout="sparse", numrec=int(r.choice([1, 2, 3])), period=int(r.choice([1, 2, 3])),
                   nsteps=int(r.randint(5, 12)), kills=True, continuous=bool(r.rand() < 0.5), speed=float(r.choice([0.25, 1.0, 2.0])),
                   pvars=bool(r.rand() < 0.7))
+    if sc["continuous"]:
+        # a file entry that is not a whole number of release periods after the first one: an uninterrupted run
+        # never reaches it (ticks are counted from the first file time); a restarted run must not either
+        sc["freq"] = 2
+        for row in sc["rows"]:
+            row["step"] = 2 * (row["step"] // 2)
+        extra = dict(sc["rows"][0], step=int(2 * r.randint(0, max(1, sc["nsteps"] // 2)) + 1), mult=2)
+        sc["rows"] = sorted(sc["rows"] + [extra], key=lambda x: x["step"])
     return sc
 
 
